@@ -88,4 +88,23 @@ def jsUnescapeGo : Nat → Bytes → Option Bytes
 
 def jsUnescape (body : Bytes) : Option Bytes := jsUnescapeGo 0 body
 
+/-! ### bytewise safety, meaningful for every output (also of text that is not UTF-8) -/
+
+/-- a byte that can never harm: no control byte (so no LF / CR), none of  < > & =  -/
+def jsByteSafe (b : UInt8) : Bool := 32 ≤ b && b != 60 && b != 62 && b != 38 && b != 61
+
+/-- every quote ' or " is preceded by a backslash that escapes it, and no backslash dangles
+    (scanning left to right, a backslash escapes exactly the next byte) -/
+def jsQuotesEscapedGo : Bool → Bytes → Bool
+  | esc, [] => !esc
+  | true, _ :: r => jsQuotesEscapedGo false r
+  | false, b :: r => if b == 92 then jsQuotesEscapedGo true r else b != 39 && b != 34 && jsQuotesEscapedGo false r
+
+def jsQuotesEscaped (s : Bytes) : Bool := jsQuotesEscapedGo false s
+
+/-- no raw U+2028 / U+2029 (E2 80 A8 / E2 80 A9) anywhere -/
+def noLineSep : Bytes → Bool
+  | [] => true
+  | b :: r => !isLineSep (b :: r) && noLineSep r
+
 end SoyVerif.Spec
